@@ -11,15 +11,15 @@ def _counts(tier, quick, thorough):
     return quick if tier == "quick" else thorough
 
 
-def vamm_run(tier, seed, q=1500, t=40000):
+def vamm_run(tier, seed, q=1500, t=150000):
     return {"mode": "vamm", "args": ["--seed", seed, "--count", _counts(tier, q, t)]}
 
 
-def feed_run(tier, seed, q=800, t=20000):
+def feed_run(tier, seed, q=800, t=80000):
     return {"mode": "pricefeed", "args": ["--seed", seed, "--count", _counts(tier, q, t)]}
 
 
-def world_runs(tier, seed, q=240, t=1200, tn=10, qn=4):
+def world_runs(tier, seed, q=240, t=2500, tn=16, qn=4):
     if tier == "quick":
         return [{"mode": "world", "args": ["--seed", seed * 100 + i, "--count", q // qn]} for i in range(qn)]
     return [{"mode": "world", "args": ["--seed", seed * 1000 + i, "--count", t]} for i in range(tn)]
@@ -31,13 +31,13 @@ def pump_runs(tier, seed, q=150, t=1200, n=3):
     return [{"mode": "world", "args": ["--seed", seed * 7000 + i, "--count", cnt, "--bias", "pump"]} for i in range(n)]
 
 
-def fault_runs(tier, seed, q=60, t=600, tn=6):
+def fault_runs(tier, seed, q=60, t=1200, tn=8):
     if tier == "quick":
         return [{"mode": "fault", "args": ["--seed", seed * 100 + 50 + i, "--count", q // 2]} for i in range(2)]
     return [{"mode": "fault", "args": ["--seed", seed * 1000 + 500 + i, "--count", t]} for i in range(tn)]
 
 
-def twin_runs(tier, seed, q=160, t=1000, tn=8):
+def twin_runs(tier, seed, q=160, t=2000, tn=12):
     if tier == "quick":
         return [{"mode": "twin", "args": ["--seed", seed * 100 + 70 + i, "--count", q // 4]} for i in range(4)]
     return [{"mode": "twin", "args": ["--seed", seed * 1000 + 700 + i, "--count", t]} for i in range(tn)]
